@@ -199,7 +199,7 @@ class ModuleInfo:
         self.src = src
         from .canon import canonicalise
 
-        self.tree = canonicalise(ast.parse(src, filename=str(path)))
+        self.tree = canonicalise(ast.parse(src, filename=str(path)), name)
         self.classes: Dict[str, ClassInfo] = {}
         self.functions: Dict[str, FuncInfo] = {}
         self.assigns: Dict[str, ast.AST] = {}
